@@ -14,6 +14,9 @@ def main(argv=None):
     ap.add_argument("--tier", default=None)
     ap.add_argument("--replay", default=None)
     ap.add_argument("--only", default=None)
+    ap.add_argument("--pin", default=None, help="dev tool: name of a regress file to create")
+    ap.add_argument("--when", default=None)
+    ap.add_argument("--test", default="*")
     a = ap.parse_args(argv)
     tier = a.tier or env.TIER
     if tier not in ("quick", "thorough"):
@@ -30,6 +33,8 @@ def main(argv=None):
     from . import engine
     from .case import StaleReplay
 
+    if a.pin:
+        return 0 if engine.pin_case(prop, a.test, a.when, a.pin) else 2
     if a.replay:
         try:
             out, case, fid = engine.replay_file(prop, a.replay, engine.load_known(pid))
